@@ -818,7 +818,7 @@ inline size_t bytesToSize(unsigned char* bytes)
 {
 	size_t result = 0;
 	if(exe_params->SZ_SIZE_TYPE==4)	
-		result = bytesToInt_bigEndian(bytes);//4		
+		result = (unsigned int)bytesToInt_bigEndian(bytes);//4		
 	else
 		result = bytesToLong_bigEndian(bytes);//8	
 	return result;
